@@ -17,7 +17,7 @@ import (
 // returns a value of the advertised type; index-taking operations obey the
 // negative-index / out-of-range law.
 
-var verifMemberKinds = []string{"int", "float", "bool", "str", "range", "list", "anyobj", "object", "option"}
+var verifMemberKinds = []string{"int", "float", "bool", "str", "range", "list", "anyobj", "object", "object-with-fields-named-like-builtin-members", "option"}
 
 type verifSubject struct {
 	typ ast.Type
@@ -63,6 +63,18 @@ func verifSubjectOf(kind string) verifSubject {
 		return verifSubject{ast.NewObjectType([]ast.ObjectTypeField{ast.NewObjectTypeField(pAst.NewSpannedIdent("a", sp), ast.NewIntType(sp), sp)}, sp),
 			*vvalue.NewValueObject(map[string]*vvalue.Value{"a": vvalue.NewValueInt(i)}),
 			*ivalue.NewValueObject(map[string]*ivalue.Value{"a": ivalue.NewValueInt(i)})}
+	case "object-with-fields-named-like-builtin-members":
+		// object types (annotations, casts of parsed JSON) may have fields named like the runtime's builtin object
+		// members: the analyzer offers them with the field's type
+		var tf []ast.ObjectTypeField
+		vf := map[string]*vvalue.Value{}
+		trf := map[string]*ivalue.Value{}
+		for _, name := range []string{"a", "to_string", "keys", "to_json", "to_json_indent"} {
+			tf = append(tf, ast.NewObjectTypeField(pAst.NewSpannedIdent(name, sp), ast.NewIntType(sp), sp))
+			vf[name] = vvalue.NewValueInt(i)
+			trf[name] = ivalue.NewValueInt(i)
+		}
+		return verifSubject{ast.NewObjectType(tf, sp), *vvalue.NewValueObject(vf), *ivalue.NewValueObject(trf)}
 	}
 	some := herrors.VerifNdBool("subj_some")
 	if some {
@@ -162,6 +174,9 @@ func VerifHarness_Members() {
 	if ft.Kind() != ast.FnTypeKind {
 		if vmHas {
 			herrors.VerifAssert("vm-field-kind", verifKindConforms((*vmMember).Kind().TypeKind(), ft))
+		}
+		if trHas {
+			herrors.VerifAssert("tree-field-kind", verifKindConforms(verifTreeTypeKind((*trMember).Kind()), ft))
 		}
 		return
 	}
